@@ -232,6 +232,52 @@ def stream_group(name, seed, encs):
                          "y_abstract": y_abs.tolist()}}
 
 
+def ma_group(inner_name, seed, encs):
+    """SingleAnnotatorWrapper / IntervalEstimationThreshold on a label matrix presented under several encodings"""
+    from skactiveml.classifier.multiannotator import AnnotatorLogisticRegression
+    from skactiveml.pool.multiannotator import IntervalEstimationThreshold, SingleAnnotatorWrapper
+
+    rng = np.random.RandomState(seed)
+    n, na = 6, 3
+    X = rng.normal(size=(n, 2)).round(3)
+    y_abs = np.where(rng.rand(n, na) < 0.5, -1, rng.randint(0, 2, size=(n, na)))
+    y_abs[0] = -1                      # at least one fully unlabeled sample
+    obs = []
+    try:
+        for enc in encs:
+            ename, classes, ml, dt = enc
+            y = np.stack([encode(y_abs[:, a], enc) for a in range(na)], axis=1)
+            if inner_name == "IET":
+                qs = IntervalEstimationThreshold(missing_label=ml, random_state=seed)
+                kw = {"clf": AnnotatorLogisticRegression(classes=list(classes), missing_label=ml, random_state=seed,
+                                                         max_iter=5), "batch_size": 2}
+            else:
+                e = ENTRIES[inner_name]
+                qs = SingleAnnotatorWrapper(e.make(seed, ml, classes), missing_label=ml, random_state=seed)
+                kw = dict(zoo.model_kwargs(e, ml, classes, seed=seed), batch_size=3, n_annotators_per_sample=2)
+            np.random.seed(5)
+            with warnings.catch_warnings():
+                warnings.simplefilter("ignore")
+                with np.errstate(all="ignore"):
+                    with pc.time_limit(20):
+                        q, u = qs.query(X.copy(), y, return_utilities=True, **kw)
+            u = np.asarray(u, dtype=float)
+            q = np.asarray(q)
+            vals = [[j + 1, v] for j, v in enumerate(u[0].ravel())]
+            vals += [[5000 + k, 1000.0 * (int(q[k, 0]) * na + int(q[k, 1]) + 1)] for k in range(len(q))]
+            obs.append((ename, vals))
+        finite = [abs(v) for o in obs for k, v in o[1] if k < 5000 and np.isfinite(v)]
+        scale = max(max(finite), 1e-6) if finite else 1.0
+        events = [{"ev": "Obs", "name": n_, "vals": [[k, _enc(v, scale) if k < 5000 else int(v)] for k, v in vals],
+                   "sel": 0, "samekeys": True, "cmpsel": False} for n_, vals in obs]
+    except BaseException as ex:
+        events = [{"ev": "Raised", "exc": "%s: %s" % (type(ex).__name__, str(ex)[:160]),
+                   "encoding": encs[len(obs)][0] if len(obs) < len(encs) else "-"}]
+    return {"id": "ma:%s/seed%d" % (inner_name, seed), "band": BAND, "events": events,
+            "concrete": {"subject": "multi-annotator:" + inner_name, "seed": seed, "encodings": [e[0] for e in encs],
+                         "X": X.tolist(), "y_abstract": y_abs.tolist()}}
+
+
 CLFS = {}
 STREAMS = {}
 
@@ -241,6 +287,8 @@ def _job(arg):
         return pool_group(*arg[1:])
     if arg[0] == "stream":
         return stream_group(*arg[1:])
+    if arg[0] == "ma":
+        return ma_group(*arg[1:])
     return clf_group(*arg[1:])
 
 
@@ -281,6 +329,10 @@ def main(tier="quick", seed=0):
     for name in sorted(STREAMS):
         for n_ in range(10 if quick else 100):
             jobs.append(("stream", name, int(rng.integers(0, 1000)), encs_all))
+    for inner in ("RandomSampling", "UncertaintySampling(entropy)", "ProbabilisticAL", "EpistemicUncertaintySampling",
+                  "IET"):
+        for n_ in range(8 if quick else 80):
+            jobs.append(("ma", inner, int(rng.integers(0, 1000)), encs_all))
     traces = pmap(_job, jobs, chunksize=2)
     chk.count(sum(len(t["events"]) for t in traces))
     for t in traces:
